@@ -235,10 +235,14 @@ spif_ustr_init_from_fp(spif_ustr_t self, FILE *fp)
     self->len = 0;
     self->s = (spif_charptr_t) MALLOC(self->size);
 
-    for (p = self->s; fgets((char *)p, buff_inc, fp); p += buff_inc) {
+    for (p = self->s; fgets((char *)p, buff_inc, fp); ) {
         if (!(end = (spif_charptr_t)strchr((const char *)p, '\n'))) {
-            self->size += buff_inc;
+            /* Continue right on top of the terminator fgets() wrote, in the (possibly moved) buffer. */
+            spif_ustridx_t used = (spif_ustridx_t) (p - self->s) + (spif_ustridx_t) strlen((const char *) p);
+
+            self->size = used + buff_inc;
             self->s = (spif_charptr_t) REALLOC(self->s, self->size);
+            p = self->s + used;
         } else {
             *end = 0;
             break;
